@@ -425,6 +425,27 @@ func RecordElements(f FlowDef, r Rec) []entities.InfoElementWithValue {
 // NeedsCorrelation reports whether flows of this kind wait for both nodes.
 func (f FlowDef) NeedsCorrelation() bool { return f.Kind == KindInterNode }
 
+// RecordNeedsCorrelation reports whether a record of the given side, taken by itself, belongs to a
+// flow that waits for the other node: an inter-node flow that this node neither saw denied at
+// egress nor rejected at ingress (the rule actions its exporter supplies).
+func (f FlowDef) RecordNeedsCorrelation(side string) bool {
+	if !f.NeedsCorrelation() {
+		return false
+	}
+	cs, cd := f.Supplied()
+	c := cs
+	if side == "D" {
+		c = cd
+	}
+	return c.EgrAct != 2 && c.EgrAct != 3 && c.IngAct != 3
+}
+
+// Denied reports whether one of the nodes of an inter-node flow reports it denied at egress or
+// rejected at ingress.
+func (f FlowDef) Denied() bool {
+	return f.NeedsCorrelation() && (!f.RecordNeedsCorrelation("S") || !f.RecordNeedsCorrelation("D"))
+}
+
 // Sides returns which per-node field groups a record of this flow fills.
 func (f FlowDef) Sides(r Rec) (src, dst bool) {
 	if !f.NeedsCorrelation() {
